@@ -207,6 +207,14 @@ def checkLimitGroups : List String → List String → V (List String)
       if seen.contains "*" && name != "*" then .error .limitGroupAfterWildcard
       else checkLimitGroups t seen
 
+/-- the resources of a limit as checkLimit reads them: parsed and strictly positive if the map has entries, else empty -/
+def limitResOf (l : Limit) : V Res :=
+  if mapLen l.maxRes != 0 then do
+    let r ← parseConf l.maxRes
+    if !strictlyGreaterThanZero (some r) then throw .limitZeroRes
+    pure r
+  else pure []
+
 /-- checkLimit; `su`/`sg` are the existingUserName / existingGroupName maps (as lists of their keys) -/
 def checkLimit (l : Limit) (su sg : List String) (q : QD) : V (List String × List String) := do
   let users := l.users.getD []
@@ -215,11 +223,7 @@ def checkLimit (l : Limit) (su sg : List String) (q : QD) : V (List String × Li
   let su ← checkLimitUsers users su
   let sg ← checkLimitGroups groups sg
   if sg.contains "*" && sg.length == 1 then throw .limitOnlyWildcardGroup
-  let limitRes ← (if mapLen l.maxRes != 0 then do
-      let r ← parseConf l.maxRes
-      if !strictlyGreaterThanZero (some r) then throw .limitZeroRes
-      pure r
-    else pure [])
+  let limitRes ← limitResOf l
   if l.maxApps == 0 && mapLen l.maxRes == 0 then throw .limitAllNull
   if q.maxApps != 0 && q.maxApps < l.maxApps then throw .limitAppsGtQueue
   if q.name != "root" then
@@ -500,10 +504,27 @@ def checkQueuesStructure (queues : Option (List QC)) : V QC :=
   | some qs =>
     if (topRoot qs).d.g.isSome || (topRoot qs).d.m.isSome then .error .rootResources else .ok (topRoot qs)
 
+/-- reflect.DeepEqual on two `map[string]string`: both nil, or both non-nil with the same length and the same value for
+    every key (the entries of a map have no order) -/
+def smapEq (a b : Option SMap) : Bool :=
+  match a, b with
+  | none, none => true
+  | some x, some y => x.length == y.length && x.all (fun p => y.lookup p.1 == some p.2)
+  | _, _ => false
+
+/-- reflect.DeepEqual on two `Limit` values / two `[]Limit` (slices are compared in order, nil and empty apart) -/
+def limitEq (a b : Limit) : Bool :=
+  a.label == b.label && a.users == b.users && a.groups == b.groups && smapEq a.maxRes b.maxRes && a.maxApps == b.maxApps
+
+def limitsEq : List Limit → List Limit → Bool
+  | [], [] => true
+  | a :: t, b :: u => limitEq a b && limitsEq t u
+  | _, _ => false
+
 /-- checkLimitsStructure: partition limits are copied to a root queue without limits -/
 def checkLimitsStructure (partLimits : List Limit) (root : QC) : V QC :=
   if toLower root.d.name != "root" then .error .topNotRoot
-  else if !partLimits.isEmpty && !root.d.limits.isEmpty && partLimits != root.d.limits then .error .partLimits
+  else if !partLimits.isEmpty && !root.d.limits.isEmpty && !limitsEq partLimits root.d.limits then .error .partLimits
   else if !partLimits.isEmpty && root.d.limits.isEmpty then
     .ok (.mk { root.d with limits := partLimits } root.qs)
   else .ok root
